@@ -303,3 +303,78 @@ mut("c14-shutdown-by-ref", "C14", A,
     }
 
     /// Returns the number of active tasks.""")])
+
+# ---- C10 -------------------------------------------------------------------------------------------------
+mut("c10-release-before-loop", "C10", A,
+    """        let w = ready!(Pin::new(lock).poll(cx));
+        let head = this.head.to_bytes();
+
+        while Self::is_writing(this.head) {""",
+    """        let w = ready!(Pin::new(lock).poll(cx));
+        let head = this.head.to_bytes();
+        if this.head_idx == 8 && this.head.content_length == 0 {
+            this.lock = None;
+            return Poll::Ready(Ok(buf.len()));
+        }
+
+        while Self::is_writing(this.head) {""",
+    "R10.2", "lock released with padding still to be written")
+mut("c10-release-on-writezero", "C10", A,
+    """            let mut written = ready!(Pin::new(&mut *w).poll_write_vectored(cx, &iov))?;
+            if written == 0 {
+                return Poll::Ready(Err(io::ErrorKind::WriteZero.into()));
+            }""",
+    """            let mut written = ready!(Pin::new(&mut *w).poll_write_vectored(cx, &iov))?;
+            if written == 0 {
+                this.lock = None;
+                return Poll::Ready(Err(io::ErrorKind::WriteZero.into()));
+            }""",
+    "R10.2", "lock released mid-record on the WriteZero path")
+mut("c10-orig-len-not-set", "C10", A,
+    """            this.head_idx = 0;
+            this.orig_len = this.head.content_length;""",
+    """            this.head_idx = 0;""",
+    "R10.3/poll_write/orig_len-init", "payload slice keeps the previous record's length")
+mut("c10-swap-payload-padding", "C10", A,
+    """                IoSlice::new(&buf[payload_idx..]),
+                IoSlice::new(this.head.padding_bytes()),""",
+    """                IoSlice::new(this.head.padding_bytes()),
+                IoSlice::new(&buf[payload_idx..]),""",
+    "R10.4/poll_write/iov-order", "padding before payload")
+mut("c10-return-untruncated", "C10", A,
+    """        let buf = buf.get(..this.orig_len.into())
+            .expect("buf shrunk between calls to poll_write");
+""",
+    """        let full = buf;
+        let buf = buf.get(..this.orig_len.into())
+            .expect("buf shrunk between calls to poll_write");
+""",
+    "R10.4/poll_write/return-count", "reports more bytes than the record carried",
+    extra=[("""        crate::macros::trace!(stream = ?this.stream(), bytes = buf.len(), "record written");
+        Poll::Ready(Ok(buf.len()))""", """        Poll::Ready(Ok(full.len()))""")])
+mut("c10-try-lock-instead-of-guard", "C10", A,
+    """        let lock = this.lock.get_or_insert_with(|| RepeatableLockFuture::new(this.output.clone()));
+        let w = ready!(Pin::new(lock).poll(cx));
+        while let out @ [_, ..] = this.parser.output_buffer() {""",
+    """        let mut guard = match this.output.try_lock() {
+            Some(g) => g,
+            None => { cx.waker().wake_by_ref(); return Poll::Pending; },
+        };
+        let w = &mut *guard;
+        while let out @ [_, ..] = this.parser.output_buffer() {""",
+    "R10.1", "guard dies at every return: a Pending mid-record releases the mutex")
+mut("c10-restart-record-on-repoll", "C10", A,
+    """        assert!(Self::is_writing(this.head), "poll_write called while poll_flush is pending");""",
+    """        assert!(Self::is_writing(this.head), "poll_write called while poll_flush is pending");
+        if this.head_idx == 0 {
+            this.head.set_lengths(buf.len().try_into().unwrap_or(u16::MAX));
+        }""",
+    "R10.3/poll_write/record-start-site", "lengths recomputed on a re-poll")
+mut("c10-benign-rename-helper", "C10", A,
+    """    fn is_writing(head: fcgi::RecordHeader) -> bool {""",
+    """    fn record_in_flight(head: fcgi::RecordHeader) -> bool {""",
+    None, "private helper renamed",
+    extra=[("""            assert!(!Self::is_writing(this.head), "lock was dropped mid-write");""", """            assert!(!Self::record_in_flight(this.head), "lock was dropped mid-write");"""),
+           ("""        assert!(Self::is_writing(this.head), "poll_write called while poll_flush is pending");""", """        assert!(Self::record_in_flight(this.head), "poll_write called while poll_flush is pending");"""),
+           ("""        while Self::is_writing(this.head) {""", """        while Self::record_in_flight(this.head) {"""),
+           ("""        assert!(!Self::is_writing(this.head), "poll_flush called while poll_write is pending");""", """        assert!(!Self::record_in_flight(this.head), "poll_flush called while poll_write is pending");""")])
